@@ -467,8 +467,8 @@ def run_loopzip(rep, ctx, anchor, proof_adts, rule="R4c"):
 # R4p: the proof list is paired with the claims by position (index loop) instead of by zip
 def run_positional(rep, ctx, anchor, rule="R4a"):
     """positional (bounds-checked) reads of the proof list: each must be dominated by a branch whose condition is
-    derived from a length observation of the proof list and from one of something that is not the proof list
-    (otherwise surplus claims are simply never looked at). Returns the number of such reads."""
+    derived from an equality-capable comparison (==, !=, cmp) of a length observation of the proof list with one
+    of something that is not the proof list (otherwise surplus claims are simply never looked at). Returns the number of such reads."""
     g = ctx.graph(anchor)
     f = ctx.facts
     idx = anchor.roles.get("proof")
@@ -488,6 +488,7 @@ def run_positional(rep, ctx, anchor, rule="R4a"):
     conds = branch_conditions(g)
     memo = {}
     n = 0
+    eqres = None
     per_body = defaultdict(int)
     for bid in sorted(g.scope):
         b = f.bodies[bid]
@@ -512,7 +513,15 @@ def run_positional(rep, ctx, anchor, rule="R4a"):
             n += 1
             k = per_body[bid]
             per_body[bid] += 1
-            guards = [(gb, gi) for (gb, gi, c) in conds if c in lp and c in lo]
+            # an index bounded by one length and bounds-checked against the other is a one-sided guard: only an
+            # equality-capable comparison of the two lengths accounts for every claim
+            if eqres is None:
+                from .meet import comparison_sites
+                eqres = set()
+                for (cb, cblk, l, r, res, _sp) in comparison_sites(g, equality_only=True):
+                    if (any(x in lp for x in l) and any(x in lo for x in r)) or (any(x in lo for x in l) and any(x in lp for x in r)):
+                        eqres |= data_closure(g, {res}, limit=200)
+            guards = [(gb, gi) for (gb, gi, c) in conds if c in eqres]
             good = [gs for gs in guards if guard_dominates(g, gs, (bid, i), memo)]
             key = "%s:positional@%s#%d" % (anchor.key, short(bid), k)
             rep.add(rule, key, bool(good),
